@@ -200,7 +200,7 @@ def run_conn(ctx, prop):
 # ---------------------------------------------------------------- strict conformance to Conn.tla
 
 CONF_DROP = {"obs_started", "obs_finished", "obs_abandoned", "avail", "wire", "frame_exp", "env_cancel", "env_failwrite",
-             "written", "closed_ret", "env_extclose_ret", "env_conn", "n_readerr", "env_unsettled", "env_stuck",
+             "written", "closed_ret", "env_held", "env_unhold", "env_extclose_ret", "env_conn", "n_readerr", "env_unsettled", "env_stuck",
              "w_sem", "w_release", "q_enq", "f_flush", "f_ret"}
 CONF_FIELDS = dict(ev="", seq=0, req="", stream=0, a=0, err="none", wn=0, werr="none", tl=0)
 
